@@ -487,8 +487,51 @@ func (c *dsCtx) dynamic(p dsPiece, st dsState, owner *ast.FuncDecl, visiting map
 			return st
 		}
 	}
+	// sb.String() of a strings.Builder: its content is what was written into it, and every write
+	// (fmt.Fprintf(&sb, …), sb.WriteString(…)) is analysed as a sink of its own
+	if call, ok := e.(*ast.CallExpr); ok && len(call.Args) == 0 && p.fn != nil {
+		if se, ok := call.Fun.(*ast.SelectorExpr); ok && se.Sel.Name == "String" {
+			if id, ok := se.X.(*ast.Ident); ok && dsIsBuilder(p.fn, id.Name) {
+				return st
+			}
+		}
+	}
 	c.record(owner, st, c.classify(e, p.fn, st.inQuote, map[string]bool{}, depth), e)
 	return st
+}
+
+// dsIsBuilder: name is a local `var name strings.Builder` or a parameter of type *strings.Builder of fn.
+func dsIsBuilder(fn *ast.FuncDecl, name string) bool {
+	isB := func(t ast.Expr) bool {
+		if st, ok := t.(*ast.StarExpr); ok {
+			t = st.X
+		}
+		se, ok := t.(*ast.SelectorExpr)
+		if !ok || se.Sel.Name != "Builder" {
+			return false
+		}
+		id, ok := se.X.(*ast.Ident)
+		return ok && id.Name == "strings"
+	}
+	for _, f := range fn.Type.Params.List {
+		for _, n := range f.Names {
+			if n.Name == name && isB(f.Type) {
+				return true
+			}
+		}
+	}
+	found := false
+	ast.Inspect(fn.Body, func(n ast.Node) bool {
+		if vs, ok := n.(*ast.ValueSpec); ok && vs.Type != nil && isB(vs.Type) {
+			for _, id := range vs.Names {
+				if id.Name == name {
+					found = true
+				}
+			}
+		}
+		return true
+	})
+	return found
 }
 
 func dsReturnsString(fd *ast.FuncDecl) bool {
@@ -643,6 +686,21 @@ func (c *dsCtx) classify(e ast.Expr, fn *ast.FuncDecl, inQuote bool, visiting ma
 				}
 			}
 			return cls
+		case strings.HasSuffix(name, ".Replace") && len(x.Args) == 1:
+			// r.Replace(v) with r a strings.NewReplacer of literal pairs (inline or a package-level
+			// variable): rewriting already escaped text keeps it safe when no pattern can cut an
+			// escape unit and every replacement is safe at the start and as the tail of a unit
+			if pairs, ok := c.replacerPairs(x); ok {
+				for i := 0; i+1 < len(pairs); i += 2 {
+					if !dsRewriteKeepsSafe(pairs[i], pairs[i+1]) {
+						return dsRaw
+					}
+				}
+				if in := c.classify(x.Args[0], fn, inQuote, visiting, depth+1); in == dsEscaped || in == dsLit || in == dsNumeric {
+					return in
+				}
+			}
+			return dsRaw
 		case name == "strings.TrimSpace" && len(x.Args) == 1:
 			if in := c.classify(x.Args[0], fn, inQuote, visiting, depth+1); in == dsNumeric || in == dsLit {
 				return in
@@ -680,6 +738,83 @@ func (c *dsCtx) classify(e ast.Expr, fn *ast.FuncDecl, inQuote bool, visiting ma
 		return dsRaw
 	}
 	return dsRaw
+}
+
+// dsRewriteKeepsSafe: replacing the non-empty pattern old by nw inside text that is safe between
+// quotes keeps it safe (Lean: Dot.qsafeA_replaceAllF) — old contains no backslash and no quote,
+// so a match cannot start inside or swallow the head of an escape unit; nw contains no quote, is
+// balanced from the normal state, and is non-empty and balanced after its first byte (the match
+// may be the second byte of a `\x` unit, whose backslash then pairs with nw's first byte).
+func dsRewriteKeepsSafe(old, nw string) bool {
+	if old == "" || strings.ContainsAny(old, "\\\"") || strings.Contains(nw, `"`) {
+		return false
+	}
+	return dsLitSafe(nw, true) && nw != "" && dsLitSafe(nw[1:], true)
+}
+
+// replacerPairs: the literal (old, new, …) arguments of the strings.NewReplacer behind call's receiver.
+func (c *dsCtx) replacerPairs(call *ast.CallExpr) ([]string, bool) {
+	se, ok := call.Fun.(*ast.SelectorExpr)
+	if !ok {
+		return nil, false
+	}
+	var nr *ast.CallExpr
+	switch r := se.X.(type) {
+	case *ast.CallExpr:
+		nr = r
+	case *ast.Ident:
+		n := 0
+		for _, d := range c.file.Decls {
+			gd, ok := d.(*ast.GenDecl)
+			if !ok || gd.Tok != token.VAR {
+				continue
+			}
+			for _, sp := range gd.Specs {
+				vs := sp.(*ast.ValueSpec)
+				for i, id := range vs.Names {
+					if id.Name == r.Name {
+						n++
+						if i < len(vs.Values) {
+							nr, _ = vs.Values[i].(*ast.CallExpr)
+						}
+					}
+				}
+			}
+		}
+		if n != 1 || c.assignedAnywhere(r.Name) {
+			return nil, false
+		}
+	}
+	if nr == nil || dsCallName(nr) != "strings.NewReplacer" || len(nr.Args) == 0 || len(nr.Args)%2 != 0 {
+		return nil, false
+	}
+	var pairs []string
+	for _, a := range nr.Args {
+		v, ok := dsStrLit(a)
+		if !ok {
+			return nil, false
+		}
+		pairs = append(pairs, v)
+	}
+	return pairs, true
+}
+
+// assignedAnywhere: is the package-level variable re-assigned in some function of the file?
+func (c *dsCtx) assignedAnywhere(name string) bool {
+	hit := false
+	for _, fd := range c.funcs {
+		ast.Inspect(fd.Body, func(n ast.Node) bool {
+			if a, ok := n.(*ast.AssignStmt); ok {
+				for _, l := range a.Lhs {
+					if id, ok := l.(*ast.Ident); ok && id.Name == name && a.Tok != token.DEFINE {
+						hit = true
+					}
+				}
+			}
+			return true
+		})
+	}
+	return hit
 }
 
 func dsParamType(fn *ast.FuncDecl, name string) string {
@@ -760,7 +895,7 @@ func (c *dsCtx) classifyFieldValue(e ast.Expr, fn *ast.FuncDecl, v, f string, vi
 			// quote (it cannot cut an escape unit) and the replacement must be quote-safe
 			old, ok1 := dsStrLit(call.Args[1])
 			nw, ok2 := dsStrLit(call.Args[2])
-			if ok1 && ok2 && !strings.ContainsAny(old, "\\\"") && dsLitSafe(nw, true) && !strings.Contains(nw, `"`) {
+			if ok1 && ok2 && dsRewriteKeepsSafe(old, nw) {
 				if se, ok := call.Args[0].(*ast.SelectorExpr); ok && se.Sel.Name == f {
 					if id, ok := se.X.(*ast.Ident); ok && id.Name == v {
 						return dsEscaped // keeps whatever class the field had; checked via the other assignments
@@ -935,8 +1070,22 @@ func genDotSites(e *Env) (string, error) {
 				for _, a := range call.Args[1:] {
 					pieces = append(pieces, c.flatten(a, fd)...)
 				}
+			case "io.WriteString":
+				if len(call.Args) != 2 {
+					return true
+				}
+				pieces = c.flatten(call.Args[1], fd)
 			default:
-				return true
+				// sb.WriteString(x) on a strings.Builder that collects DOT text is the same sink as
+				// `s += x`; the byte loop inside escapeForDot itself is the escaping primitive, not a sink
+				se, isSel := call.Fun.(*ast.SelectorExpr)
+				if !isSel || se.Sel.Name != "WriteString" || len(call.Args) != 1 || fd.Name.Name == "escapeForDot" {
+					return true
+				}
+				if id, ok := se.X.(*ast.Ident); !ok || !dsIsBuilder(fd, id.Name) {
+					return true
+				}
+				pieces = c.flatten(call.Args[0], fd)
 			}
 			roots++
 			end := c.walk(pieces, dsState{ok: true}, fd, map[string]bool{}, 0)
